@@ -23,6 +23,8 @@ func main() {
 	tier := fs.String("tier", envOr("VERIF_TIER", "quick"), "quick|thorough")
 	keep := fs.Bool("keep", false, "keep SMT files")
 	verbose := fs.Bool("v", false, "verbose")
+	fs.IntVar(&funcBatchMs, "batch-ms", 3000, "func: per-query limit of the batch run")
+	fs.IntVar(&funcSingleMs, "single-ms", 10000, "func: per-query limit of the portfolio run")
 	fs.Parse(os.Args[2:])
 	args := fs.Args()
 	start := time.Now()
@@ -74,6 +76,8 @@ func workDir() string {
 }
 
 // cmdFunc verifies the named functions (suffix match on contract keys) and prints every obligation.
+var funcBatchMs, funcSingleMs = 3000, 10000
+
 func cmdFunc(eng *Engine, pats []string, keep, verbose bool) int {
 	var fcs []*FuncContract
 	for k, fc := range eng.cs.Funcs {
@@ -102,7 +106,7 @@ func cmdFunc(eng *Engine, pats []string, keep, verbose bool) int {
 	}
 	eng.known = loadKnownFindings(eng.verif)
 	stats := NewSolveStats()
-	results := verifyAll(eng, fcs, lemmas, dir, 3000, 10000, stats, keep)
+	results := verifyAll(eng, fcs, lemmas, dir, funcBatchMs, funcSingleMs, stats, keep)
 	bad := 0
 	for _, r := range results {
 		if r.Trusted {
